@@ -129,7 +129,7 @@ fn spec_sample(spec: &Spec, post: &Post) -> serde_json::Value {
         "run_seed": spec.run_seed,
         "cfg": spec.cfg,
         "ops": spec.ops.iter().map(|o| o.short()).collect::<Vec<_>>(),
-        "schedule": match &spec.sched { Sched::Default => "default (switch only when blocked)".to_string(), Sched::Prng{seed, policy} => format!("prng seed {seed} {policy:?}"), Sched::Tape(t) => format!("tape of {} decisions", t.len()) },
+        "schedule": match &spec.sched { Sched::Default => "default (switch only when blocked)".to_string(), Sched::Prng{seed, policy} => format!("prng seed {seed} {policy:?}"), Sched::Tape(t) => format!("explicit tape of {} decisions, {} of them non-default (255 = default: keep running, or next eligible thread when blocked): {:?}", t.len(), t.iter().filter(|x| **x != 255).count(), t) },
         "faults": spec.faults,
         "flush_batch": spec.flush_batch,
         "post": post,
@@ -419,6 +419,43 @@ pub fn shrink(w: &Witness, budget_s: u64, max_cands: u32) -> (Witness, u32) {
         c.spec.sched = Sched::Tape(out.ep.tape.clone());
         attempt(c, &mut best, &mut tried);
     }
+    // 7. minimise the schedule itself: replace runs of recorded decisions by "default" (255)
+    if let Sched::Tape(t0_tape) = best.spec.sched.clone() {
+        let mut tape = t0_tape;
+        // cut the unused tail first
+        let mut chunk = (tape.len() / 2).max(1);
+        while chunk >= 1 && tried < max_cands && t0.elapsed().as_secs() < budget_s {
+            let mut i = 0;
+            while i < tape.len() && tried < max_cands && t0.elapsed().as_secs() < budget_s {
+                let end = (i + chunk).min(tape.len());
+                if tape[i..end].iter().all(|x| *x == 255) {
+                    i = end;
+                    continue;
+                }
+                let mut cand_tape = tape.clone();
+                for x in cand_tape[i..end].iter_mut() {
+                    *x = 255;
+                }
+                let mut c = best.clone();
+                c.spec.sched = Sched::Tape(cand_tape.clone());
+                if attempt(c, &mut best, &mut tried) {
+                    tape = cand_tape;
+                }
+                i = end;
+            }
+            if chunk == 1 {
+                break;
+            }
+            chunk /= 2;
+        }
+        // drop trailing defaults
+        while tape.last() == Some(&255) {
+            tape.pop();
+        }
+        let mut c = best.clone();
+        c.spec.sched = Sched::Tape(tape);
+        attempt(c, &mut best, &mut tried);
+    }
     // refresh the violation text from the minimal witness
     let (ws, _) = reproduce(&best, false, true);
     if let Some((v, _)) = ws.into_iter().find(|(v, _)| v.class == class) {
@@ -589,7 +626,7 @@ pub fn check(prop: &str, thorough: bool, verif_seed: u64, jobs: u64) -> i32 {
         let confirmed = matches!(&st, Ok(o) if o.status.code() == Some(1));
         println!("violation: property={prop} class=\"{class}\" occurrences={} first at run index {}", agg_c.count, agg_c.first_idx);
         println!("  {}", min.violation.detail);
-        println!("  minimised: {} -> {} ops, {} faults, schedule {}; {} candidates; fresh-process replay {}", original_ops, min.spec.ops.len(), min.spec.faults.len(), match &min.spec.sched { Sched::Default => "default".to_string(), Sched::Tape(t) => format!("tape[{}]", t.len()), Sched::Prng{..} => "prng".to_string() }, tried, if confirmed { "reproduced it" } else { "DID NOT reproduce it" });
+        println!("  minimised: {} -> {} ops, {} faults, schedule {}; {} candidates; fresh-process replay {}", original_ops, min.spec.ops.len(), min.spec.faults.len(), match &min.spec.sched { Sched::Default => "default".to_string(), Sched::Tape(t) => format!("tape[{} decisions, {} non-default]", t.len(), t.iter().filter(|x| **x != 255).count()), Sched::Prng{..} => "prng".to_string() }, tried, if confirmed { "reproduced it" } else { "DID NOT reproduce it" });
         println!("  ops: {:?}", min.spec.ops.iter().map(|o| o.short()).collect::<Vec<_>>());
         viol_lines.push(format!("VIOLATION property={prop} replay={path}"));
     }
